@@ -138,7 +138,12 @@ def forall(n, pred):
             return all(bool(v) for v in vals)
         return z3.And(*[sym.to_bool(v) for v in vals]) if vals else z3.BoolVal(True)
     i = z3.Int(sym.fresh_name('s'))
-    return z3.ForAll([i], z3.Implies(z3.And(i >= 0, i < lift(n)), sym.to_bool(pred(i))))
+    sym.SCOPE.append(i)
+    try:
+        body = sym.to_bool(pred(i))
+    finally:
+        sym.SCOPE.pop()
+    return z3.ForAll([i], z3.Implies(z3.And(i >= 0, i < lift(n)), body))
 
 
 def exists(n, pred):
@@ -149,7 +154,12 @@ def exists(n, pred):
             return any(bool(v) for v in vals)
         return z3.Or(*[sym.to_bool(v) for v in vals]) if vals else z3.BoolVal(False)
     i = z3.Int(sym.fresh_name('s'))
-    return z3.Exists([i], z3.And(i >= 0, i < lift(n), sym.to_bool(pred(i))))
+    sym.SCOPE.append(i)
+    try:
+        body = sym.to_bool(pred(i))
+    finally:
+        sym.SCOPE.pop()
+    return z3.Exists([i], z3.And(i >= 0, i < lift(n), body))
 
 
 def psum(g, lo, hi, ctx=None):
